@@ -2,6 +2,7 @@ package main
 
 import (
 	"fmt"
+	"regexp"
 	"sort"
 	"strings"
 )
@@ -137,4 +138,90 @@ func (e *Eng) lemmaAxioms(uses []string) string {
 		}
 	}
 	return b.String()
+}
+
+var smtBuiltins = map[string]bool{"and": true, "or": true, "not": true, "=>": true, "=": true, "<": true, "<=": true, ">": true, ">=": true,
+	"+": true, "-": true, "*": true, "div": true, "mod": true, "ite": true, "let": true, "forall": true, "exists": true, "select": true,
+	"store": true, "distinct": true, "true": true, "false": true, "!": true, "as": true, "const": true, "Array": true, "Int": true, "Bool": true,
+	"xor": true, "abs": true}
+
+// unresolved lists the free identifiers of expr that are neither bound by env, nor bound
+// variables, nor symbols of the prelude.
+func (e *Eng) unresolved(expr *SX, env map[string]string) []string {
+	if e.known == nil {
+		e.known = map[string]bool{}
+		txt := basePrelude + bytesAxioms + e.reg.declStructs() + e.reg.declHeap()
+		for _, p := range e.cs.Prelude {
+			txt += p.Text + "\n"
+		}
+		if all, err := parseAllSX(txt); err == nil {
+			for _, x := range all {
+				x.atoms(e.known)
+			}
+		}
+	}
+	var out []string
+	seen := map[string]bool{}
+	var walk func(x *SX, bound map[string]bool)
+	walk = func(x *SX, bound map[string]bool) {
+		if x == nil {
+			return
+		}
+		if !x.IsL {
+			a := x.Atom
+			if a == "" || bound[a] || smtBuiltins[a] || e.known[a] {
+				return
+			}
+			if _, ok := env[a]; ok {
+				return
+			}
+			c := a[0]
+			if (c >= '0' && c <= '9') || c == ':' || c == '"' || c == '#' {
+				return
+			}
+			if strings.HasPrefix(a, "strlit") || strings.HasPrefix(a, "tid.") || strings.HasPrefix(a, "fid.") || strings.HasPrefix(a, "sprintf") || strings.HasPrefix(a, "implements.") || strings.HasPrefix(a, "mk_") || strings.HasPrefix(a, "box_") || strings.HasPrefix(a, "unbox_") || strings.HasPrefix(a, "deref.") {
+				return
+			}
+			if !seen[a] {
+				seen[a] = true
+				out = append(out, a)
+			}
+			return
+		}
+		if len(x.List) >= 3 && !x.List[0].IsL && (x.List[0].Atom == "forall" || x.List[0].Atom == "exists" || x.List[0].Atom == "let") && x.List[1].IsL {
+			b2 := map[string]bool{}
+			for k := range bound {
+				b2[k] = true
+			}
+			for _, bd := range x.List[1].List {
+				if bd.IsL && len(bd.List) > 0 {
+					if x.List[0].Atom == "let" && len(bd.List) == 2 {
+						walk(bd.List[1], bound)
+					}
+					b2[bd.List[0].Atom] = true
+				}
+			}
+			for _, c := range x.List[2:] {
+				walk(c, b2)
+			}
+			return
+		}
+		for _, c := range x.List {
+			walk(c, bound)
+		}
+	}
+	walk(expr, map[string]bool{})
+	return out
+}
+
+var strLitRe = regexp.MustCompile(`"[^"]*"`)
+
+// strLitSubst replaces SMT string literals in contract text by the string-literal constants.
+func (e *Eng) strLitSubst(t string) string {
+	if !strings.Contains(t, "\"") {
+		return t
+	}
+	return strLitRe.ReplaceAllStringFunc(t, func(m string) string {
+		return e.strLit(m[1 : len(m)-1])
+	})
 }
